@@ -63,7 +63,7 @@ def obligations(tier):
     for t, p, m in ((4, 0, 1), (4, 2, 1), (5, 3, 1), (4, 8, 1), (4, 0, 2), (5, 2, 2), (9, 8, 2)):
         L.append(ob("textappend-contract/t=%d/p=%d/mode=%d" % (t, p, m), ".", "VerifC17MText", [t, p, 1 if q else 2, m, False], covers=["contract-violated"], max_seconds=900, max_paths=60000))
     # ---- marshal: options and Reset inside the call
-    for t, p, api, r in ((0, 0, 0, False), (1, 2, 0, True), (0, 3, 1, True), (1, 4, 2, True), (12, 6, 2, False), (0, 8, 0, True), (1, 0, 1, False)):
+    for t, p, api, r in ((0, 0, 0, False), (1, 2, 0, True), (0, 3, 1, True), (1, 4, 2, True), (12, 6, 2, False), (0, 8, 0, True), (1, 0, 1, False), (0, 2, 3, True), (1, 1, 3, False)):
         L.append(ob("mopts/t=%d/p=%d/api=%d/reset=%d" % (t, p, api, r), ".", "VerifC17MOpts", [t, p, api, r], covers=["done"] + (["reset-tried"] if r else []), max_seconds=900, max_paths=2000))
     # ---- marshal: function lists
     FS = [(0, 0, "TvTv", 0), (1, 2, "TvJv", 0), (13, 3, "JvTv", 0), (0, 4, "ToTvTp", 1), (1, 6, "TpTvJi", 0), (13, 8, "TiJpTv", 1),
@@ -74,7 +74,10 @@ def obligations(tier):
         L.append(ob("mfuncs/t=%d/p=%d/%s/nest=%d" % (t, p, spec, nest), ".", "VerifC17MFuncs", [t, p, spec, bool(nest)],
                     covers=([] if (not nil and hasJ(spec)) else ["all-skipped"]) + ([] if nil else ["function-decides", "error"]), max_seconds=900, max_paths=3000))
     for sh in range(4):
-        L.append(ob("mfuncsany/shape=%d" % sh, ".", "VerifC17MFuncsAny", [sh], covers=["done"], max_seconds=900, max_paths=100))
+        for single in (False, True):
+            L.append(ob("mfuncsany/shape=%d/single=%d" % (sh, single), ".", "VerifC17MFuncsAny", [sh, single], covers=["done"], max_seconds=900, max_paths=100))
+    for sh in range(3):
+        L.append(ob("ufuncsany/shape=%d" % sh, ".", "VerifC17UFuncsAny", [sh], covers=["done"], max_seconds=900, max_paths=100))
     # ---- unmarshal: order
     for t in range(6):
         for p in range(11):
@@ -93,7 +96,7 @@ def obligations(tier):
     for t, p, n, tm in ((2, 0, 2 if q else 3, ""), (4, 3, 2, ""), (2, 0, 0, '"\\\\??"'), (2, 7, 0, '"??"'), (4, 0, 0, "nul?")):
         L.append(ob("ut/t=%d/p=%d/n=%d/%s" % (t, p, n, tm), ".", "VerifC17UT", [t, p, n, tm], covers=["null"] if tm.startswith("nul") else ["called"], max_seconds=900, max_paths=60000))
     # ---- unmarshal: options, Reset, function lists
-    for t, p, api, r in ((0, 0, 0, False), (3, 1, 0, True), (4, 2, 0, True), (0, 0, 1, True), (0, 0, 2, True), (0, 4, 0, True), (0, 7, 0, False)):
+    for t, p, api, r in ((0, 0, 0, False), (3, 1, 0, True), (4, 2, 0, True), (0, 0, 1, True), (0, 0, 2, True), (0, 0, 3, True), (0, 4, 0, True), (0, 7, 0, False)):
         L.append(ob("uopts/t=%d/p=%d/api=%d/reset=%d" % (t, p, api, r), ".", "VerifC17UOpts", [t, p, api, r], covers=["done"] + (["reset-tried"] if r else []), max_seconds=900, max_paths=2000))
     UFS = [(0, 0, "TpTp", 0), (5, 1, "TpJp", 0), (0, 2, "JpTp", 0), (5, 3, "ToTiTp", 1), (0, 4, "TiJpTp", 0), (5, 5, "TpTiJo", 1), (0, 6, "TpJi", 0),
            (5, 7, "TiTp", 0), (0, 8, "TpJp", 0), (5, 9, "JoTpJi", 1), (0, 10, "TiTpTp", 1)]
